@@ -1,3 +1,4 @@
 pub mod bits;
 pub mod natural;
+pub mod unify;
 pub mod value;
